@@ -31,7 +31,7 @@ Cases == UNION {CasesOf(old, Texts) : old \in Texts} \cup CasesOf(LongOld, LongN
 VARIABLES c, done
 Init == c \in Cases /\ done = FALSE
 Next == done = FALSE /\ done' = TRUE /\ UNCHANGED c
-LawsHoldOnSpec == done => LET o == SpecObs(c) IN Failed(c, o) = {} /\ Conforms(c, o)
+LawsHoldOnSpec == done => LET v == Verdict(c, SpecObs(c)) IN v.failed = {} /\ ~v.drift
 \* anti-vacuity witnesses: TLC must find these states
 Outcomes(x) == {ApplyHunks(x.perts[k], SpecDiff(x.old, x.new, x.ctx)) : k \in DOMAIN x.perts}
 WitnessStillMatches == ~(c.old # c.new /\ \E r \in Outcomes(c) : r.kind = "ok" /\ r.out # c.new)
